@@ -204,6 +204,14 @@ def check(ctx):
 
     # ---- C07.exact ----------------------------------------------------------------------------------------------------------------
     ff = prog.func('ast_view', 'find_fqn')
+    # semantic first: find_fqn interpreted on the lookup universe of C14 (exactly the declarations on the scope chain, each once)
+    from .c14 import _lookup_semantics
+    fc_ = prog.cls('ast', 'FileContents')
+    decl_fields_ = [nm for nm, (ann, _d, owner) in prog.class_fields(fc_).items()
+                    if (lambda t: t[0] == 'list' and t[1][0] == 'cls' and t[1][1] in prog.classes and 'fqn' in prog.classes[t[1][1]].fields)(
+                        prog.ann_to_type(owner.module, ann, owner))]
+    if 'find_fqn' in _lookup_semantics(ctx, decl_fields_, rules=('C07.exact',), only=('find_fqn',)):
+        return
     from .shared import fqn_match_form
     okf, whyf, nodef = fqn_match_form(ctx, ff)
     if okf is not None:
